@@ -195,8 +195,11 @@ class BGPPeering(BGPFactory):
             # Remove the protocol, if it exists
             if pro is self.estab_protocol:
                 self.estab_protocol = None
-                # self.fsm should still be valid and set to ST_IDLE
-                self.fsm.state = bgp_cons.ST_IDLE
+                # self.fsm should still be valid and set to ST_IDLE, unless the
+                # close of this (old) connection completed so late that the next
+                # connection attempt is already in flight: leave that one alone
+                if self.fsm.state != bgp_cons.ST_CONNECT:
+                    self.fsm.state = bgp_cons.ST_IDLE
 
         if self.fsm.allow_automatic_start:
             self.automatic_start(idle_hold=True)
